@@ -204,9 +204,9 @@ def run_harness(binp, lines, timeout_per_batch=60, tags=False, extra_args=()):
             break
     return results
 
-def run_driver(lines):
+def run_driver(lines, timeout=3000):
     p = subprocess.run([NBDRV], input="\n".join(lines) + "\n", stdout=subprocess.PIPE, stderr=subprocess.PIPE, text=True,
-                       timeout=3000)
+                       timeout=timeout)
     out = p.stdout.split("\n")
     if out and out[-1] == "":
         out.pop()
@@ -280,8 +280,8 @@ def shrink_candidates(line):
         for k in range(min(n, 12)):
             j = k if k < 6 else n - 1 - (k - 6)
             if 0 <= j < n:
-                for v in ("0", "1", "ffffffffffffffff"):
-                    if limbs[j] != v:
+                for v in ("0", "1"):            # never a larger digit: a shrink step must not grow the cost
+                    if limbs[j] != v and int(limbs[j], 16) > int(v, 16):
                         emit(limbs[:j] + [v] + limbs[j + 1:])
                 emit(limbs[:j] + limbs[j + 1:])
     # byte strings, u32 word lists, decimal scalars
@@ -318,9 +318,17 @@ def still_fails(binp, cands, extra_args=()):
     if not cands:
         return None
     impl = run_harness(binp, cands, timeout_per_batch=30, extra_args=extra_args)
-    mo = run_driver(cands)
+    try:
+        mo = run_driver(cands, timeout=60)
+    except subprocess.TimeoutExpired:
+        mo = []
+        for c in cands:                      # a candidate the model cannot evaluate quickly is not a shrink step
+            try:
+                mo.append(run_driver([c], timeout=10)[0])
+            except subprocess.TimeoutExpired:
+                mo.append(("unsupported", "unsupported"))
     for c, r, (m, o) in zip(cands, impl, mo):
-        if r in ("unsupported", "skipped", None) or m == "unsupported" or o == "-":
+        if r in ("unsupported", "skipped", "timeout", None) or m == "unsupported" or o == "-":
             continue
         if r != o:
             return c, r, m, o
